@@ -42,6 +42,46 @@ def _check_read(t: Tally, RPD, buf: bytes, bits: str, p: int, n: int):
                                   "pos_after": r.pos, "buffer_unchanged": bytes(r) == buf})
 
 
+def _task_forms(task):
+    """The raw packet object built from every kind of object that bytes() itself accepts - bytes, bytearray, memoryview, arrays of 1-, 2- and
+    4-byte items, a cast memoryview, a list of ints, another raw packet object: it holds bytes(that object), and every (p, n) reads accordingly."""
+    import array
+    from space_packet_parser.packets import CCSDSPacket, RawPacketData as RPD
+    t = Tally()
+    base = bytes((i * 89 + 0x35) & 0xFF for i in range(8))
+    forms = {"bytes": base, "bytearray": bytearray(base), "memoryview": memoryview(base), "array-B": array.array("B", base), "array-H": array.array("H", base),
+             "array-I": array.array("I", base), "memoryview-cast-H": memoryview(base).cast("H"), "list-of-ints": list(base), "raw-packet-object": RPD(base),
+             "array-q": array.array("q", base)}
+    with case_alarm(600):
+        for name, obj in forms.items():
+            buf = bytes(obj)
+            bits = _bits(buf)
+            for via_packet in (False, True):
+                def mk():
+                    return CCSDSPacket(raw_data=obj).raw_data if via_packet else RPD(obj)
+                for p in range(0, len(bits) + 1, 1):
+                    for n in (0, 1, 3, 8, 11, 16, 24, 33, len(bits) - p):
+                        if n < 0 or p + n > len(bits):
+                            continue
+                        want_int = int(bits[p:p + n] or "0", 2)
+                        for kind in ("int", "bytes"):
+                            t.evals += 1
+                            try:
+                                r = mk()
+                                r.pos = p
+                                got = r.read_as_int(n) if kind == "int" else r.read_as_bytes(n)
+                                ok = got == (want_int if kind == "int" else want_int.to_bytes((n + 7) // 8, "big")) and r.pos == p + n and bytes(r) == buf
+                            except Exception as e:  # noqa: BLE001
+                                got, ok = f"raised:{type(e).__name__}", False
+                            if not ok:
+                                t.violation({"kind": "read-mismatch", "read": kind, "built_from": name},
+                                            {"forms": True, "built_from": name, "via_packet": via_packet, "pos": p, "nbits": n, "read": kind, "buf": buf.hex()},
+                                            observed=got.hex() if isinstance(got, bytes) else got, note="a raw packet object built from this kind of object does not read as bytes(object) does")
+            t.nontrivial += 1
+            t.outcomes["forms"] += 1
+    return t
+
+
 def _in_thread(fn):
     """Run fn() on another thread than the one that imported the library, wait for it, and pass an escaping exception on."""
     import threading
@@ -57,6 +97,64 @@ def _in_thread(fn):
     th.join()
     if box:
         raise box[0]
+
+
+def _task_threads(task):
+    """Kernel E-thread: two threads each read from their OWN raw packet object at the same time, under every interleaving of their accesses to
+    the object (slicing it, reading and setting its cursor are the yield points): each read is what it is alone (nothing at module level is
+    shared between reads)."""
+    from space_packet_parser.packets import RawPacketData as RPD
+    from mc.threadexplore import explore
+
+    class YRPD(RPD):
+        _pt = None
+
+        def __getitem__(self, k):
+            if self._pt is not None:
+                self._pt()
+            return super().__getitem__(k)
+
+        @property
+        def pos(self):
+            if self._pt is not None:
+                self._pt()
+            return self.__dict__.get("_pos", 0)
+
+        @pos.setter
+        def pos(self, v):
+            if self._pt is not None:
+                self._pt()
+            self.__dict__["_pos"] = v
+    t = Tally()
+    bufs = [bytes((i * 89 + 0x35) & 0xFF for i in range(6)), bytes((i * 57 + 0xC1) & 0xFF for i in range(5))]
+    ops = [(0, 3, "int"), (3, 13, "int"), (5, 11, "bytes"), (8, 16, "int"), (8, 16, "bytes"), (13, 27, "int"), (1, 39, "bytes"), (40, 0, "int"), (16, 24, "bytes"),
+           (7, 1, "int"), (12, 7, "bytes")]
+
+    def read(buf, p, n, kind, point=None):
+        r = YRPD(buf)
+        r.pos = p
+        r._pt = point
+        got = r.read_as_int(n) if kind == "int" else r.read_as_bytes(n)
+        r._pt = None
+        return (got, r.pos)
+    with case_alarm(900):
+        for a in task["first"]:
+            for b in range(len(ops)):
+                want = (("ok", read(bufs[0], *ops[a])), ("ok", read(bufs[1], *ops[b])))
+
+                def check(results, choices):
+                    t.evals += 1
+                    t.traces += 1
+                    if tuple(results) != want:
+                        t.violation({"kind": "concurrent-reads-interfere"}, {"threads": True, "ops": [list(ops[a]), list(ops[b])], "schedule": list(choices)},
+                                    expected=str(want), observed=str(tuple(results)),
+                                    note="two threads reading from two different raw packet objects: a result differs from the read alone")
+                st = explore(lambda: [lambda point: read(bufs[0], *ops[a], point), lambda point: read(bufs[1], *ops[b], point)], check, bound=2, max_execs=20000)
+                t.outcomes["threads"] += st["executions"]
+                if st["capped"]:
+                    t.caps.append("thread interleavings capped at 20000 for one pair of reads")
+                t.nontrivial += 1
+    return t
 
 
 def _task_small(task):
@@ -362,6 +460,8 @@ def run(ctx):
     if not ctx.quick:
         htasks += [{"lengths": [3], "firsts": [f], "depth": 4} for f in range(len(_ops_for(24)))]
     tally.merge(fan_out(_task_histories, htasks, jobs=ctx.jobs, seed=ctx.seed))
+    tally.merge(fan_out(_task_threads, [{"first": [a]} for a in range(11)], jobs=ctx.jobs, seed=ctx.seed))
+    tally.merge(_task_forms({}))
     _cold_start(tally)
     _cold_start_args(tally)
     coverage = {
@@ -373,7 +473,7 @@ def run(ctx):
                   "walking-1/walking-0 over every bit for lengths 3..%d; (c) aligned and unaligned reads on 64, 4096, 65542-byte buffers; "
                   f"(d) histories on ONE object: every sequence of {depth} reads over an alphabet of (position, width, kind) with the cursor set freely before each read, "
                   f"buffers of {'3, 8, 16' if ctx.quick else '3, 6, 8, 16, 32 bytes, and every sequence of 4 reads on 3'} bytes, cached header properties touched at varying points; "
-                  "(e) in a fresh interpreter: for every shape (pos mod 8 in 0..7, width 1..72, 80, 96, 127, 128) a failing over-read first, then in-range reads of that shape; (g) every (p, n) of a 3-byte buffer read on a worker thread; (f) in a fresh interpreter: every (position 0..39, width 0..40) first used with an equal float / Fraction / Decimal / bool position and/or width (not judged), then with the integers" % (4 if ctx.quick else 6)),
+                  "(e) in a fresh interpreter: for every shape (pos mod 8 in 0..7, width 1..72, 80, 96, 127, 128) a failing over-read first, then in-range reads of that shape; (i) raw packet objects built from bytes, bytearray, memoryview, arrays of 1/2/4/8-byte items, a cast memoryview, a list of ints and another raw packet object, directly and through CCSDSPacket(raw_data=...), every position x 9 widths; (g) every (p, n) of a 3-byte buffer read on a worker thread; (h) kernel E-thread: every ordered pair of 11 reads on two raw packet objects by two threads at once, every interleaving of their accesses to the objects with at most 2 preemptions; (f) in a fresh interpreter: every (position 0..39, width 0..40) first used with an equal float / Fraction / Decimal / bool position and/or width (not judged), then with the integers" % (4 if ctx.quick else 6)),
         "rule": ("one evaluation = one read (int or bytes) of one (buffer, p, n); distinct non-trivial = distinct small buffers fully "
                  "swept plus distinct (length, p, n) windows swept over the content family"),
     }
@@ -383,9 +483,17 @@ def run(ctx):
 
 def replay(case):
     from space_packet_parser.packets import RawPacketData as RPD
+    if case.get("threads"):
+        t = Tally()
+        for a in range(11):
+            t.merge(_task_threads({"first": [a]}))
+        return t.violations[0] if t.violations else None
     if isinstance(case["buf"], dict):
         return None
     buf = bytes.fromhex(case["buf"])
+    if case.get("forms"):
+        t = _task_forms({})
+        return next((v for v in t.violations if all(v["case"].get(k) == case.get(k) for k in ("built_from", "via_packet", "pos", "nbits", "read"))), None)
     if case.get("cold_start") or case.get("cold_start_args"):
         t = Tally()
         (_cold_start if case.get("cold_start") else _cold_start_args)(t)
